@@ -76,8 +76,10 @@ def bounded_relation_views(sess: Session):
     w = type('W', (), {'_default_mode': False, '_expanded_ids': (), '_lexicon_ids': (1,)})()
     targets = [core.Synset(f't{i}', 'n', None, 1, 10 + i, w) for i in range(2)]
     stargets = [core.Sense(f's{i}', 'e', 'ss', 1, 20 + i, w) for i in range(2)]
-    rels = [core.Relation(n, 'src', t.id, 'lex:1', metadata=({'type': d} if d else {}))
-            for n in ('hypernym', 'similar') for t in targets for d in (None, 'x')]
+    # parallel relations: same name and target, different dc:type and / or other metadata (dc:source)
+    rels = [core.Relation(n, 'src', t.id, 'lex:1', metadata={k: v for k, v in (('type', d), ('source', m)) if v})
+            for n in ('hypernym', 'similar') for t in targets for d in (None, 'x') for m in (None, 'survey')]
+    merged = []          # known finding K26: declared relations that differ only in metadata other than dc:type
 
     class S(core.Synset):
         __slots__ = ('pairs',)
@@ -114,10 +116,16 @@ def bounded_relation_views(sess: Session):
                 if ss.get_related(typ) != list(dict.fromkeys(t for r, t in combo if r.name == typ)):
                     bad.append(('get_related(type)', typ, [(r.name, t.id) for r, t in combo]))
             rm = ss.relation_map()
-            # pairs that differ (also only in dc:type) stay distinct
-            distinct_keys = {(r.name, r.source_id, r.target_id, r._lexicon, r.subtype) for r, _ in combo}
-            if len(rm) != len(distinct_keys):
-                bad.append(('relation_map', [(r.name, t.id, r.subtype) for r, t in combo], len(rm)))
+            # one entry per declared relation row: rows that differ in anything (name, target, any metadata) stay
+            # distinct (identical rows are one row: the queries are SELECT DISTINCT)
+            declared = {(r.name, r.source_id, r.target_id, r._lexicon, tuple(sorted(r.metadata().items())))
+                        for r, _ in combo}
+            code_keys = {(r.name, r.source_id, r.target_id, r._lexicon, r.subtype) for r, _ in combo}
+            if len(rm) != len(declared):
+                if len(rm) == len(code_keys):
+                    merged.append([(r.name, t.id, r.metadata()) for r, t in combo])
+                else:
+                    bad.append(('relation_map', [(r.name, t.id, r.metadata()) for r, t in combo], len(rm)))
             se = Se('src', 'e', 'ss', 1, 1, w)
             se.pairs = [(r, stargets[int(t.id[1])]) for r, t in combo]
             se.spairs = list(combo)
@@ -127,8 +135,14 @@ def bounded_relation_views(sess: Session):
             srel = se.relations()
             if list(srel) != list(want_rel):
                 bad.append(('Sense.relations', [(r.name, t.id) for r, t in combo]))
+    if merged:
+        sess.violation_direct('wn._core.relation_map:parallel-relations', 'relation_map() has fewer entries than declared '
+                              'relations: relations that differ only in metadata other than dc:type share one key',
+                              {'witness': repr(merged[0])[:1500], 'cases': len(merged)}, True, finding='K26',
+                              functions=('wn._core.Synset.relation_map', 'wn._core.Relation.__eq__',
+                                         'wn._core.Relation.__hash__'))
     sess.add_bounded('wn._core.Synset/Sense.relations|get_related|relation_map|get_related_synsets',
-                     'all lists of <= 3 pairs over 2 names x 2 targets x 2 dc:types', cases,
+                     'all lists of <= 3 pairs over 2 names x 2 targets x 2 dc:types x 2 dc:source values', cases,
                      'small-scope enumeration on the real methods', not bad)
     if bad:
         sess.violation_direct('wn._core.relations-views:bounded', f'{bad[0][0]} differs from its contract',
@@ -181,6 +195,9 @@ def run(sess: Session):
     sense_relation_split(sess)
     bounded_relation_views(sess)
     bounded_graphs(sess)
+    # closure() / get_related through inferred placeholders (real database with an expand lexicon; shared with C12)
+    from contracts import C12 as _c12
+    _c12.expand_bounded(sess)
 
 
 def sense_relation_split(sess: Session):
